@@ -688,8 +688,9 @@ def to_coq(case, obs):
     enc = "EBytes %s" % lit if lit is not None else "EHash %s %s" % (L.N(len(rec)), L.N(_digest(rec)))
     if any(_is_dt_form(t) for t in case["row"]):
         same = "(OOk %s)" % L.lst("ODate" if _is_dt_form(t) else "(OVal %s)" % _coq_val(t) for t in case["row"])
-        if obs["dec"][0] == "raise" and obs["dec"][1] != "DataError":
-            return None      # datetime.fromtimestamp range / type errors are not modelled beyond TypeError
+        if obs["dec"][0] == "raise" and obs["dec"][1] != "DataError" and any(
+                _is_dt_form(t) and t[1][1][0] in ("i", "f", "b") for t in case["row"]):
+            return None      # datetime.fromtimestamp range errors on a numeric argument are not modelled
     else:
         same = "(OOk (map OVal %s))" % row_term
     dec = _coq_outcome(obs["dec"], same)
@@ -960,6 +961,16 @@ def _raw(data, how):
     return {"kind": "raw", "data": _spec(data), "how": how}
 
 
+def _leaky(payload):
+    """ormsgpack 1.12 leaks the pre-sized list when an array32/map32 announcing n elements fails to decode (a list of
+    2**32-1 NULL slots then makes every later garbage collection of the checking process take seconds): keep the
+    announced counts of generated garbage below 2**20.  Conservative textual test."""
+    for i, b in enumerate(payload):
+        if b in (0xDD, 0xDF) and int.from_bytes(payload[i + 1:i + 5].ljust(4, b"\xff"), "big") > 2**20:
+            return True
+    return False
+
+
 FIXED_PAYLOADS = [
     ("nil", b"\xc0"), ("int", b"\x01"), ("str", b"\xa1a"), ("map", b"\x80"), ("true", b"\xc3"), ("float", b"\xcb" + bytes(8)), ("bin", b"\xc4\x00"),
     ("empty-array", b"\x90"), ("array+trailing", b"\x90\x90"), ("array+trailing-garbage", b"\x91\x01\xc1\xff"), ("reserved", b"\x91\xc1"),
@@ -976,8 +987,8 @@ FIXED_PAYLOADS = [
     ("f32-max", b"\x91\xca\x7f\x7f\xff\xff"), ("f32-min-normal", b"\x91\xca\x00\x80\x00\x00"), ("f32-sub-mid", b"\x91\xca\x80\x00\x12\x34"),
     ("u64-max", b"\x91\xcf" + b"\xff" * 8), ("i64-min", b"\x91\xd3\x80" + bytes(7)), ("i8-min", b"\x91\xd0\x80"), ("i8-pos", b"\x91\xd0\x7f"), ("i16-neg1", b"\x91\xd1\xff\xff"),
     ("i32-min", b"\x91\xd2\x80\x00\x00\x00"), ("i64-neg1", b"\x91\xd3" + b"\xff" * 8), ("u16-nonshortest", b"\x91\xcd\x00\x01"), ("u32-nonshortest", b"\x91\xce\x00\x00\x00\x01"),
-    ("truncated-array", b"\x92\x01"), ("empty-payload", b""), ("array32-huge-count", b"\xdd\xff\xff\xff\xff"), ("str32-huge-len", b"\x91\xdb\xff\xff\xff\xff"),
-    ("map32-huge-count", b"\x91\xdf\xff\xff\xff\xff"), ("bin32-huge-len", b"\x91\xc6\xff\xff\xff\xff"), ("array16-short", b"\xdc\x00\x03\x01\x02"), ("trunc-u16", b"\x91\xcd\x00"),
+    ("truncated-array", b"\x92\x01"), ("empty-payload", b""), ("array32-count-beyond-input", b"\xdd\x00\x10\x00\x00"), ("str32-huge-len", b"\x91\xdb\xff\xff\xff\xff"),
+    ("map32-count-beyond-input", b"\x91\xdf\x00\x10\x00\x00"), ("bin32-huge-len", b"\x91\xc6\xff\xff\xff\xff"), ("array16-short", b"\xdc\x00\x03\x01\x02"), ("trunc-u16", b"\x91\xcd\x00"),
     ("trunc-f64", b"\x91\xcb\x00\x00"), ("trunc-str8", b"\x91\xd9"), ("trunc-arr16-hdr", b"\xdc\x00"), ("trunc-map-value", b"\x91\x81\xa1a"),
     ("dt-int", b"\x91\x92\xac__datetime__\x01"), ("dt-float", b"\x91\x92\xac__datetime__\xcb" + struct.pack(">d", 1.5)), ("dt-str", b"\x91\x92\xac__datetime__\xa1a"),
     ("dt-nil", b"\x91\x92\xac__datetime__\xc0"), ("dt-true", b"\x91\x92\xac__datetime__\xc3"), ("dt-arr", b"\x91\x92\xac__datetime__\x90"), ("dt-map", b"\x91\x92\xac__datetime__\x80"),
@@ -1031,6 +1042,13 @@ def _mutate(rng, payload):
 
 
 def _random_raw(rng):
+    while True:
+        c = _random_raw1(rng)
+        if not _leaky(_unspec(c["data"])[14:]):
+            return c
+
+
+def _random_raw1(rng):
     import ormsgpack
 
     r = rng.random()
